@@ -764,7 +764,7 @@ rt_prop("C01", ["core", "bridge", "hosts"],
         "live command is armed with the root waker of its executor task or that task is queued, and every wake takes the waker "
         "and queues the task. The nested "
         "instance over commands hosted by other commands is stated (C01_nested_quiescent_goal) but not proved; it is covered by the correspondence "
-        "(queue-length hooks, no-op probe after every call) and the oracle clauses effect-deferred-to-later-call / not-quiescent-after-call.",
+        "(queue-length hooks, no-op probe after every call) and the oracle clauses effect-deferred-to-later-call / not-quiescent-after-call. DIRECT HOST, whole runs (direct_observation_quiescent_and_armed, taking_a_waker_wakes_its_task): for every simpleS task program, after every history, when the observation has returned the ready queue is empty and every stored task has its own waker registered in a channel whose sender the shell still holds — the resolve or drop of that request wakes that task (invariants GInv, LQ, CS of C07).",
         goals=["C01_nested_quiescent_goal"])
 rt_prop("C02", ["task", "core", "bridge", "comb"],
         "Proof (Props/C02.lean): Resolve arities on the model of core/resolve.rs — never_rejected, once_accepts_one, "
